@@ -57,7 +57,7 @@ pub fn distparse(input: &Value) -> Out {
     Out::new(o, 2 + n, (n > 0) as u64)
 }
 
-/// in {rcsid: []|[bytes], entries: [{name, size: []|[digits], sums: [[alg, hash]...]}]}: assemble
+/// in {rcsid: []|[bytes], entries: [{name, path?, size: []|[digits], sums: [[alg, hash]...]}]}: assemble
 /// through the API (set_rcsid, Entry::new, insert), write, parse back
 pub fn distbuild(input: &Value) -> Out {
     let mut d = Distinfo::new();
@@ -74,7 +74,9 @@ pub fn distbuild(input: &Value) -> Out {
             .iter()
             .map(|s| Checksum::new(ALGS[s[0].as_u64().unwrap() as usize - 1], to_string(&s[1])))
             .collect();
-        let entry = Entry::new(&name, &name, sums, size);
+        // the file's location ("path", default = the name) has no influence on what is recorded
+        let filepath = match e.get("path") { Some(p) => PathBuf::from(OsString::from_vec(to_bytes(p))), None => name.clone() };
+        let entry = Entry::new(&name, &filepath, sums, size);
         inserted.push(tf(d.insert(entry)));
     }
     let bytes = d.as_bytes();
@@ -197,7 +199,12 @@ pub fn verify(input: &Value) -> Out {
             entry_same &= format!("{:?}", e.verify_checksum(&full, *a).map_err(|x| err_json(&x)))
                 == format!("{:?}", d.verify_checksum(&full, *a).map_err(|x| err_json(&x)));
         }
-        entry_same &= e.verify_checksums(&full).len() == all.len();
+        let eall: Vec<Value> = e
+            .verify_checksums(&full)
+            .iter()
+            .map(|r| match r { Ok(x) => json!(["Ok", alg_index(x)]), Err(e) => err_json(e) })
+            .collect();
+        entry_same &= eall == all;
     }
     // calculate_*: size of the file, digest of the bytes absorbed for this path's type
     let last_is_patch = EntryType::from(&full) == EntryType::Patchfile;
